@@ -8,14 +8,142 @@ VERIF = Path(__file__).resolve().parent.parent
 
 # id -> (level, text, note, technique, design_ref)
 CHECKS = {
+    "C01": ("exploration",
+            "Round-trip oracle on canonical bytes: every value written (recorded as little-endian C-order bytes of the "
+            "declared dtype) is compared bytewise, with shape and the format's dtype rule, against what each of the five "
+            "readers returns, over formats x compressions x dtypes x ranks x value classes (min/max, +-0, inf, NaN "
+            "payloads, subnormals, random bits, NUL-containing strings) x input presentations; icontract contracts on "
+            "compress (inverse) and decode_array run on every shard. Held on the cells executed.",
+            "Baseline of supported cells = spec/supported_cells.json (cells that round-trip on the pinned tree).",
+            "runtime differential oracle (bytes written vs bytes read) + icontract postconditions", "DESIGN.md §3 C01"),
+    "C02": ("exploration",
+            "Multiset oracle on self-identifying examples (unique ids, payload recomputed from the id) over datasets x "
+            "interfaces x shuffle sizes x parallelism straddling the prefill/buffer/thread boundaries, with worker "
+            "completion orders forced by a FIFO gate (fb/npz, incl. the Rust threads) and seeded delay injection "
+            "(TFRecord); a non-idempotent process_record reveals 0/1/2 applications; overlapping passes included.",
+            "TensorFlow-internal threads can only be perturbed, not controlled.",
+            "runtime monitor: exactly-once oracle over recorded reader output under forced completion orders",
+            "DESIGN.md §3 C02"),
+    "C03": ("exploration",
+            "Sequence oracle: with shuffle=0 every pass (same handle, reopened, other parallelism, other forced "
+            "completion order incl. reversed) must yield the identical sequence, monotone in the write sequence per "
+            "session/writer/split; FIFO gate forces adversarial completion orders.",
+            "Order across different sessions is not asserted.",
+            "runtime monitor: order/determinism oracle under FIFO-gated completion orders", "DESIGN.md §3 C03"),
+    "C04": ("exploration",
+            "Independent auditor (raw JSON walk, every shard decoded with the format's own decoder) after every session "
+            "of generated histories + icontract postconditions on ShardsList.write_config, merge_shard_infos, "
+            "Shard.write + handle-vs-fresh-open comparison.",
+            "Histories contain only valid writes; multi-writer sessions run single_process=True here (C09 covers real "
+            "processes).",
+            "runtime monitor: offline audit of the metadata tree after each session + online contracts",
+            "DESIGN.md §3 C04"),
+    "C05": ("fault_enumeration",
+            "Every reachable file of committed datasets (flat, nested, multi-writer, continued) is tampered (bit flips at "
+            "sampled/all offsets, truncation, extension, deletion, swap with sibling, rollback to every older version) "
+            "and check(expected root checksums) must raise on a fresh and on the kept handle, and pass again after "
+            "restoring; untampered datasets must pass.",
+            "No-op tamperings (byte-identical swaps) are skipped by comparing bytes.",
+            "fault injection on files + runtime oracle on check() raising", "DESIGN.md §3 C05"),
+    "C06": ("fault_enumeration",
+            "The real writer process is killed (strace inject SIGKILL) on entry to every k-th file-system call of the "
+            "crashing session, plus torn prefixes of every write; the surviving directory is audited (metadata parse, "
+            "reachable shards match digests) and iterated by a fresh reader: earlier sessions intact, only whole "
+            "examples that were written.",
+            "Process crash with the OS staying up (no power loss); crash points = syscall boundaries seen by strace.",
+            "crash-point enumeration via strace fault injection + offline auditor", "DESIGN.md §3 C06"),
+    "C07": ("fault_enumeration",
+            "Datasets with a deleted/emptied/truncated/garbage shard are iterated through every interface; outcome must "
+            "be an exception: 'normal end with the shard's examples missing' is silent truncation, and a blocked process "
+            "is diagnosed by the quiescence oracle (thread states, CPU, context switches, stacks) rather than a "
+            "deadline. The Rust extension is rebuilt from rust/src.",
+            "Premise per case: the independent single-shard decoder rejects the damaged file.",
+            "fault injection on shard files + quiescence oracle for hangs", "DESIGN.md §3 C07"),
+    "C08": ("exploration",
+            "Reference-model multiset oracle after every session of generated histories (reused/nested sub-directories, "
+            "multi-writer, reopen vs keep): iteration == everything accepted so far, payloads intact, sessions do not "
+            "raise; Dataset.create on an existing dataset refused with the tree digest unchanged.",
+            "One live handle at a time.", "runtime monitor: history + reference model (append-only multiset)",
+            "DESIGN.md §3 C08"),
+    "C09": ("exploration",
+            "Real-process write_multiprocessing runs (fresh process each) with seeded delays in the feed function are "
+            "compared with the single_process run of the same writers: per-split multiset, per-writer order, return "
+            "values in argument order, audited metadata, check(); per-pid written path sets (from the writers' own "
+            "logs and strace in thorough) must be disjoint.",
+            "Worker scheduling is perturbed by delays/CPU load, not controlled.",
+            "differential runtime oracle (parallel vs sequential) + per-process write-set monitor", "DESIGN.md §3 C09"),
+    "C10": ("exploration",
+            "icontract postconditions on the filler's write_example/close_shard (online) + auditor: every shard 1..eps "
+            "examples (recorded and decoded); every partial shard is last of its (session, writer, split) or followed "
+            "by a metadata change; boundaries eps in {1..16}, counts k*eps+-1, rejected writes at boundaries.",
+            "A rejected write carrying another metadata value counts as a metadata change of the argument sequence.",
+            "runtime contracts + offline audit of shard sizes", "DESIGN.md §3 C10"),
+    "C11": ("exploration",
+            "Recorder snapshots (deep copy at call time) vs the recorded metadata of the shard that stores each id; "
+            "selection by metadata through shard_filter; workloads mutate one shared dict (also nested parts) in place "
+            "between writes.",
+            "Examples written without metadata may sit in a labelled shard (documented).",
+            "runtime monitor: call-time snapshots vs audited shard labels", "DESIGN.md §3 C11"),
+    "C12": ("exploration",
+            "Selected shard set computed from the audited shard list by the statement's definition; each interface's id "
+            "multiset under shards=k / shard_filter / custom_metadata_type_limit compared with the ids stored in those "
+            "shards; combined options compared across interfaces; empty selections must raise.",
+            "Enumeration order taken from the raw metadata walk (own shards, then children depth-first).",
+            "differential runtime oracle: interface output vs contents of the selected shard files", "DESIGN.md §3 C12"),
+    "C13": ("exploration",
+            "Controlled scheduler driving the real LazyPool at queue-operation granularity (random, sticky, PCT, "
+            "preemption-bounded DFS for T<=2,n<=3): multiset, no deadlock state, workers terminate after the context, "
+            "pool reusable; plus uncontrolled real-thread stress with the quiescence oracle.",
+            "Shims cover queue.Queue/time.sleep/Thread.start; other primitives fall back to the stress mode.",
+            "systematic schedule exploration (controlled scheduler) of the real code", "DESIGN.md §3 C13"),
+    "C14": ("exploration",
+            "Counting sources measure pulled-vs-yielded at every yield for shuffle_buffer/round_robin(+async)/LazyPool; "
+            "shard opens observed by audit hook / FIFO-gate ready sets for the dataset-level paths incl. Rust; measured "
+            "at stream lengths N, 10N, infinite: read-ahead must be length-independent and below 4(b+T)+16.",
+            "Only the affine bound and length-independence decide (retuning a prefetch constant is not an alarm).",
+            "runtime monitor: read-ahead counters on instrumented sources and observed shard opens", "DESIGN.md §3 C14"),
+    "C15": ("exploration",
+            "Differential Python-vs-Rust reader on fb datasets under FIFO-gated completion orders (T<,=,>n), early drop "
+            "at every position with thread counts from /proc/self/task before/after, overlapping iterators; native "
+            "harness (#[path] wrapper crate) with out-of-order sleeps and in-flight counters, also under "
+            "AddressSanitizer in the thorough tier.",
+            "TSan/Miri unavailable (no rust-src); ASan needs the nightly toolchain present in the image.",
+            "differential runtime oracle under forced completion orders + sanitizer run of the native harness",
+            "DESIGN.md §3 C15"),
     "C16": ("exploration",
             "Runtime monitor: a postcondition contract on hash_checksums plus explicit comparison of every "
             "returned/stored digest with independent implementations (coreutils, openssl, pure-Python XXH32/64, "
             "published vectors) over file sizes around every multiple of the read buffer and algorithm tuples "
-            "with permutations/repetitions. Held on the executions produced, not a proof.",
+            "with permutations/repetitions; concurrent hashing from threads included.",
             "Trusts coreutils/openssl/hashlib one-shot digests; xxh128 only has one-shot xxhash + vectors.",
-            "runtime contract (icontract) + differential oracle vs external digest tools",
-            "DESIGN.md §3 C16"),
+            "runtime contract (icontract) + differential oracle vs external digest tools", "DESIGN.md §3 C16"),
+    "C17": ("exploration",
+            "Crafted metadata (path grammar in every path-valued field) and writer sub-directory arguments; a child "
+            "process loads/checks/iterates/writes under strace -f and a Python audit hook; any file-system call naming a "
+            "path under the zone but outside the root, an accepted outside path, or a change of the canary tree is a "
+            "violation.",
+            "Symbolic links are out of scope.", "system-call trace monitor (strace) + audit hook over a path grammar",
+            "DESIGN.md §3 C17"),
+    "C18": ("exploration",
+            "Generated write sequences with ground-truth labels (valid / kind of violation) at every position incl. "
+            "right after roll-overs; oracle: valid writes accepted, shape violations rejected, auditor and readers "
+            "return exactly the accepted ids, counts exact; declaration cases over 14 dtypes x formats: accepted "
+            "implies readable.",
+            "Invalid-but-accepted is allowed only where the format does not enforce the dtype.",
+            "runtime monitor: labelled write histories vs audited result + contracts", "DESIGN.md §3 C18"),
+    "C19": ("exploration",
+            "Prefixes of m in {2,3,5} epochs of repeat=True streams via islice + explicit close: membership, "
+            "N-periodicity when unshuffled, per-epoch permutation for the Rust interface, overlapping repeating "
+            "iterators.",
+            "'Forever' is restated as 'm epochs for every m tried'.", "runtime monitor on bounded stream prefixes",
+            "DESIGN.md §3 C19"),
+    "C20": ("exploration",
+            "Random descriptions (unicode, nested JSON custom metadata at dataset/attribute/shard level, every "
+            "setting) compared after reopen; relocation (copy/move to nested/unicode/blank/relative targets, '..' "
+            "spellings): open, check, iterate identically, accept further writing; version triples around the running "
+            "version must be refused iff newer.",
+            "Running version varied by patching sedpack.__version__ (read at call time).",
+            "runtime differential oracle (before/after reopen and relocation) + version-gate table", "DESIGN.md §3 C20"),
 }
 
 NOT_YET = "check not built yet in this session (will be claimed once its monitor exists)"
@@ -24,6 +152,9 @@ NOT_YET = "check not built yet in this session (will be claimed once its monitor
 def main() -> int:
     props = [json.loads(line)["id"] for line in (VERIF / "properties.jsonl").read_text().splitlines() if line.strip()]
     checks = []
+    for pid in list(CHECKS):
+        if not (VERIF / "rtmon" / "props" / f"{pid.lower()}.py").is_file():
+            del CHECKS[pid]
     for pid in props:
         if pid not in CHECKS:
             continue
